@@ -16,7 +16,20 @@ REPO = os.environ.get("KV_REPO", "/repo")
 OCAML = os.path.join(VERIF, "ocaml")
 EVID = os.path.join(VERIF, "evidence")
 REPLAYS = os.path.join(EVID, "replays")
-NPROC = min(16, os.cpu_count() or 4)
+def _nproc():
+    """shards: one per core, but no more than the memory that is free allows (a shard of the extracted model or of the
+    harness can hold 1-2 GB on the big cases)"""
+    n = min(16, os.cpu_count() or 4)
+    try:
+        for l in open("/proc/meminfo"):
+            if l.startswith("MemAvailable:"):
+                n = max(2, min(n, int(l.split()[1]) // (2 * 1024 * 1024)))
+    except OSError:
+        pass
+    return n
+
+
+NPROC = _nproc()
 
 ENV = dict(os.environ, CARGO_NET_OFFLINE="true")
 
